@@ -100,10 +100,13 @@ FamP(n) ==
 CmapOf(codes, f) ==    \* f : 1..3 -> 0..n-1, 0 = not mapped
   SelectSeq([i \in 1..3 |-> <<codes[i], f[i]>>], LAMBDA e : e[2] # 0)
 
-\* C: all character maps on three codes, in format 4, format 12 and both, with a composite that creates extras
+\* C: all character maps on three codes (consecutive, so that dropping or moving a glyph breaks and re-forms
+\* runs of the encoded subtable; or scattered up to the astral planes), in format 4, format 12 and both,
+\* with a composite that creates extras
 FamC(n) ==
   { [CompLast(Base("ttf", n)) EXCEPT !.cmapcfg = cfg[1], !.cmap = CmapOf(cfg[2], f)] :
-      cfg \in { <<"4", <<66, 67, 300>> >>, <<"12", <<66, 67, 128512>> >>, <<"4+12", <<66, 8364, 128512>> >> },
+      cfg \in { <<"4", <<66, 67, 68>> >>, <<"12", <<66, 67, 68>> >>,            \* a run of consecutive codes
+               <<"12", <<66, 67, 128512>> >>, <<"4+12", <<66, 8364, 128512>> >> },
       f \in [1..3 -> 0..(n - 1)] }
   \cup { [CompLast(Base("ttf", n)) EXCEPT !.cmapcfg = "none", !.cmap = << >>] }
   \cup { [Base(k, n) EXCEPT !.cmapcfg = "4+12", !.cmap = CmapOf(<<66, 8364, 128512>>, f),
